@@ -19,6 +19,54 @@ from .interp_expr import Frame
 _AUX_COMP: Dict[Any, Any] = {}
 
 
+def captures(terms, x):
+    """the parameters of a lifted comprehension: the maximal subterms of the body that do not contain the
+    bound element x (and are not literals), in order of first occurrence - so that two comprehensions of the
+    same shape denote the same function whatever expressions they close over"""
+    has_x = {}
+
+    def contains(t):
+        i = t.get_id()
+        if i not in has_x:
+            if z3.is_quantifier(t):
+                has_x[i] = any(v.eq(x) for v in z3util.get_vars(t))
+            else:
+                has_x[i] = t.eq(x) or any(contains(c) for c in t.children())
+        return has_x[i]
+
+    caps, seen = [], set()
+
+    def is_literal(t):
+        if z3.is_quantifier(t) or not z3.is_app(t):
+            return False
+        if t.num_args() == 0:
+            return t.decl().kind() != z3.Z3_OP_UNINTERPRETED
+        # constructor applications / interpreted operators over literals only (e.g. an operator definition record)
+        return t.decl().kind() != z3.Z3_OP_UNINTERPRETED and t.decl().kind() != z3.Z3_OP_RECURSIVE \
+            and all(is_literal(c) for c in t.children())
+
+    def walk(t):
+        if not contains(t):
+            if is_literal(t):
+                return
+            if t.get_id() not in seen:
+                seen.add(t.get_id())
+                caps.append(t)
+            return
+        if z3.is_quantifier(t):
+            # x under a binder: fall back to the free constants of the quantified formula
+            for v in z3util.get_vars(t):
+                if not v.eq(x) and v.get_id() not in seen:
+                    seen.add(v.get_id())
+                    caps.append(v)
+            return
+        for c in t.children():
+            walk(c)
+    for t in terms:
+        walk(t)
+    return caps
+
+
 class ContractMixin:
     # ------------------------------------------------------------------ obligations
     def obligation(self, name, kind, tag, goal, node=None, exact=None):
@@ -30,15 +78,61 @@ class ContractMixin:
             return obs[0]
         st = self.ex.st
         defs = self.auto_unfold(goal)
-        ob = Obligation(name, kind, tag, list(self.ex.base_hyps) + list(st.pc) + defs, goal, tuple(st.sig),
+        hyps = list(self.ex.base_hyps) + list(st.pc)
+        defs = defs + self.auto_lemmas() + self.quantified_defs(hyps + [goal])
+        ob = Obligation(name, kind, tag, hyps + defs, goal, tuple(st.sig),
                         exact=(not st.inexact) if exact is None else exact,
                         where=f'line {getattr(node, "lineno", "?")}')
         self.obligations.append(ob)
         return ob
 
+    def auto_lemmas(self):
+        """proved lemmas flagged `auto` for a spec this task uses, as universally quantified hypotheses;
+        while proving a lemma only earlier lemmas (no circular reasoning)"""
+        from .contracts import LEMMAS
+        from .lemmas import lemma_as_hypothesis
+        out = []
+        cur = getattr(self, 'current_lemma', None)
+        for lm in LEMMAS.values():
+            if not lm.auto or not (set(lm.auto) & self.specs_used):
+                continue
+            if cur is not None and lm.index >= cur.index:
+                continue
+            key = lm.name
+            if key not in self._auto_cache:
+                self._auto_cache[key] = lemma_as_hypothesis(self, lm)
+            self.lemmas_used.add(lm.name)
+            out.append(self._auto_cache[key])
+        return out
+
+    def quantified_defs(self, terms):
+        """definitions of the quantified predicates (equiv) applied in terms:  equiv(a, b) == ForAll rho ..."""
+        out = []
+        if not self.qpreds:
+            return out
+        seen = set()
+        done = set()
+        stack = list(terms)
+        while stack:
+            t = stack.pop()
+            if t.get_id() in seen:
+                continue
+            seen.add(t.get_id())
+            if z3.is_quantifier(t):
+                continue        # an application under a binder has no ground definition instance
+            if z3.is_app(t):
+                b = self.qpreds.get(t.decl().get_id())
+                if b is not None and t.get_id() not in done:
+                    done.add(t.get_id())
+                    out.append(t == b(*t.children()))
+                stack.extend(t.children())
+        return out
+
     def skolemize(self, goal):
         """a universally quantified goal is proved for fresh constants (so that definitional instances of
         the spec functions applied to them can be generated); only positive top-level positions"""
+        if z3.is_app(goal) and self.qpreds.get(goal.decl().get_id()) is not None:
+            return self.skolemize(self.qpreds[goal.decl().get_id()](*goal.children()))
         if z3.is_quantifier(goal) and goal.is_forall():
             cs = [z3.Const(self.ex.fresh_name(goal.var_name(i) + '!sk'), goal.var_sort(i))
                   for i in range(goal.num_vars())]
@@ -126,6 +220,21 @@ class ContractMixin:
         env = self.bind_args(fnode, func, args, kwargs, fr, node)
         if is_ctor:
             env.pop(fnode.args.args[0].arg, None)
+            # attrs converters run before the validators the contract describes: a concrete argument of a
+            # convertible kind (an Enum member, a token string) is converted natively, as __init__ would
+            import attrs as _attrs
+            import enum as _enum
+            try:
+                flds = {a.name: a for a in _attrs.fields(owner)}
+            except Exception:
+                flds = {}
+            for k, v in list(env.items()):
+                a = flds.get(k)
+                if a is not None and a.converter is not None and isinstance(v, (_enum.Enum, str)):
+                    try:
+                        env[k] = a.converter(v)
+                    except Exception as e:
+                        raise Untranslatable(f'converter of {owner.__name__}.{k} failed natively: {e}')
         for k, v in list(env.items()):
             if isinstance(v, Box) and v.kind == 'dict':
                 continue
@@ -352,16 +461,7 @@ class ContractMixin:
 
     def comp_function(self, body, filt, x, ety, rty):
         """hash-consed first-order map/filter function for a comprehension body"""
-        terms = [body] + ([filt] if filt is not None else [])
-        caps = []
-        seen = set()
-        for t in terms:
-            for v in z3util.get_vars(t):
-                if v.eq(x) or v.get_id() in seen:
-                    continue
-                seen.add(v.get_id())
-                caps.append(v)
-        caps.sort(key=lambda v: str(v))
+        caps = captures([body] + ([filt] if filt is not None else []), x)
         # canonical placeholders
         ph = [z3.Const(f'cap!{i}!{c.sort()}', c.sort()) for i, c in enumerate(caps)]
         px = z3.Const(f'elem!{ety.z3sort()}', ety.z3sort())
@@ -405,16 +505,7 @@ class ContractMixin:
             # canonical form: all(P) is not any(not P), so that both folds over the same body are one function
             nb = body.arg(0) if z3.is_not(body) else z3.Not(body)
             return z3.Not(self.fused_fold(True, ('comp', nb, filt, x, ety, rty, seqterm)))
-        terms = [body] + ([filt] if filt is not None else [])
-        caps = []
-        seen = set()
-        for t in terms:
-            for v in z3util.get_vars(t):
-                if v.eq(x) or v.get_id() in seen:
-                    continue
-                seen.add(v.get_id())
-                caps.append(v)
-        caps.sort(key=lambda v: str(v))
+        caps = captures([body] + ([filt] if filt is not None else []), x)
         ph = [z3.Const(f'cap!{i}!{c.sort()}', c.sort()) for i, c in enumerate(caps)]
         px = z3.Const(f'elem!{ety.z3sort()}', ety.z3sort())
         sub = [(c, p) for c, p in zip(caps, ph)] + [(x, px)]
